@@ -4,6 +4,8 @@ import (
 	"context"
 	"encoding/json"
 	"fmt"
+	"os"
+	"sort"
 	"strings"
 	"testing"
 
@@ -31,6 +33,11 @@ type UndOp struct {
 
 type UndBody struct {
 	Ops []UndOp `json:"ops"`
+	// Crash: the run ends with one more DROP DATABASE (or, when nothing is live, dolt_undrop) that the
+	// server does not survive: on every crash image the database is either still there or can be
+	// brought back by dolt_undrop, with the fingerprint it had; the other databases are untouched
+	Crash bool      `json:"crash,omitempty"`
+	Only  *SQLCrash `json:"only,omitempty"`
 }
 
 var undNames = []string{"test", "d1", "d2"}
@@ -61,6 +68,7 @@ func (UND) Generate(seed uint64, tier string) *core.Scenario {
 			b.Ops = append(b.Ops, UndOp{Kind: "restart"})
 		}
 	}
+	b.Crash = r.Chance(1, 2)
 	raw, _ := json.Marshal(b)
 	return &core.Scenario{Property: "C47", Harness: "C47", Seed: seed, Tier: tier, Body: raw}
 }
@@ -127,8 +135,11 @@ func (UND) Execute(t *testing.T, sc *core.Scenario) *core.Result {
 		return res
 	}
 	defer w.Close()
-	live := map[string]bool{"test": true}
-	dropped := map[string]string{} // name -> fingerprint of the most recently dropped database of that name
+	// live: lower-case name -> the spelling of its directory; dropped: the trash as dolt keeps it, exact
+	// spelling -> fingerprint (on a case-sensitive file system "d1" and "D1" lie side by side; a second
+	// database of the very same spelling pushes the older one aside under a suffixed name)
+	live := map[string]string{"test": "test"}
+	dropped := map[string]string{}
 	sig := core.NewSig()
 	restored := 0
 	sess := func() *Sess {
@@ -167,14 +178,14 @@ func (UND) Execute(t *testing.T, sc *core.Scenario) *core.Result {
 			}
 			_, err := s.Exec(ctx, "CREATE DATABASE `"+spelled+"`")
 			if err == nil {
-				if live[name] {
+				if live[name] != "" {
 					res.Violate("create-over-live-database", "-", step, "CREATE DATABASE %s succeeded although it exists", name)
 				}
-				live[name] = true
+				live[name] = spelled
 				res.Probe("created")
 			}
 		case "fill":
-			if !live[name] {
+			if live[name] == "" {
 				continue
 			}
 			if err := s.MustExec(ctx, "USE `"+name+"`"); err != nil {
@@ -197,7 +208,7 @@ func (UND) Execute(t *testing.T, sc *core.Scenario) *core.Result {
 				}
 			}
 		case "drop":
-			if !live[name] {
+			if live[name] == "" {
 				continue
 			}
 			fp, err := fingerprint(ctx, s, name)
@@ -209,8 +220,11 @@ func (UND) Execute(t *testing.T, sc *core.Scenario) *core.Result {
 				res.Probe("drop_refused:" + firstLine(err)[:min(50, len(firstLine(err)))])
 				continue
 			}
+			if _, side := undCandidates(dropped, live[name]); len(side) > 0 && dropped[live[name]] == "" {
+				res.Probe("trash_holds_two_spellings_of_one_name")
+			}
+			dropped[live[name]] = fp
 			delete(live, name)
-			dropped[name] = fp
 			res.Fault("drop-database")
 			if _, err := s.Exec(ctx, fmt.Sprintf("SELECT name FROM `%s`.dolt_branches", name)); err == nil {
 				res.Violate("dropped-database-still-visible", "-", step, "database %s answers queries after DROP DATABASE", name)
@@ -224,17 +238,19 @@ func (UND) Execute(t *testing.T, sc *core.Scenario) *core.Result {
 				arg = strings.ToUpper(name[:1]) + name[1:]
 			}
 			var before string
-			if live[name] {
+			if live[name] != "" {
 				if before, err = fingerprint(ctx, s, name); err != nil {
 					res.Violate("fingerprint-failed", "when=before-undrop", step, "%s", firstLine(err))
 					continue
 				}
 			}
 			_, uerr := s.Exec(ctx, "CALL dolt_undrop('"+arg+"')")
-			fp, inTrash := dropped[name]
+			// what the call names: the dropped database of exactly that spelling, else the one that differs
+			// in letter case only; with several of those and no exact one the choice is dolt's
+			exact, cands := undCandidates(dropped, arg)
 			res.Evaluations++
 			switch {
-			case live[name]:
+			case live[name] != "":
 				// never overwrite an existing database of the same name
 				if uerr == nil {
 					res.Violate("undrop-onto-live-database-succeeded", "-", step, "dolt_undrop('%s') succeeded although database %s exists", arg, name)
@@ -246,29 +262,47 @@ func (UND) Execute(t *testing.T, sc *core.Scenario) *core.Result {
 				} else {
 					res.Fault("undrop-refused-name-in-use")
 				}
-			case inTrash:
+			case len(cands) > 0:
 				if uerr != nil {
-					res.Violate("undrop-failed", "-", step, "dolt_undrop('%s') failed although %s was dropped and not purged: %s", arg, name, firstLine(uerr))
+					res.Violate("undrop-failed", "-", step, "dolt_undrop('%s') failed although %v was dropped and not purged: %s", arg, cands, firstLine(uerr))
 					continue
 				}
-				live[name] = true
-				delete(dropped, name)
 				s2 := sess()
 				after, err := fingerprint(ctx, s2, name)
 				if err != nil {
 					res.Violate("restored-database-unreadable", "-", step, "after dolt_undrop('%s'): %s", arg, firstLine(err))
-				} else if after != fp {
-					res.Violate("restored-database-differs", "-", step, "database %s after dolt_undrop('%s') differs from what it held before DROP DATABASE:\nbefore:\n%s\nafter:\n%s", name, arg, indent(fp), indent(after))
+					live[name] = cands[0]
+					delete(dropped, cands[0])
+					continue
+				}
+				want := cands
+				if exact != "" {
+					want = []string{exact}
+				} else if len(cands) > 1 {
+					res.Probe("undrop_name_ambiguous")
+				}
+				got := ""
+				for _, c := range want {
+					if dropped[c] == after {
+						got = c
+						break
+					}
+				}
+				if got == "" {
+					res.Violate("restored-database-differs", fmt.Sprintf("exact-spelling-in-trash=%v;spellings=%d", exact != "", len(cands)), step, "database %s after dolt_undrop('%s') differs from what %v held before DROP DATABASE (the trash held %v):\nbefore:\n%s\nafter:\n%s", name, arg, want, cands, indent(dropped[want[0]]), indent(after))
+					got = want[0]
 				} else {
 					restored++
 					res.Fault("undrop-restored")
 				}
+				live[name] = got
+				delete(dropped, got)
 			default:
 				if uerr == nil {
 					// an older dropped copy of that name may legitimately exist under a suffixed name
 					// only; the plain name must not resolve
 					res.Violate("undrop-of-nothing-succeeded", "-", step, "dolt_undrop('%s') succeeded although no dropped database of that name is left", arg)
-					live[name] = true
+					live[name] = arg
 				} else {
 					res.Probe("undrop_nothing_refused")
 				}
@@ -286,6 +320,9 @@ func (UND) Execute(t *testing.T, sc *core.Scenario) *core.Result {
 			break
 		}
 	}
+	if b.Crash && !res.Violated() && res.Panic == "" {
+		restored += undCrashPhase(ctx, sc, &b, w, sos, res, live, dropped)
+	}
 	res.Ops = len(b.Ops)
 	res.LogHash = sig.Sum()
 	if restored > 0 {
@@ -296,6 +333,178 @@ func (UND) Execute(t *testing.T, sc *core.Scenario) *core.Result {
 	res.ProbeN("restored_and_compared", restored)
 	res.Sample = map[string]any{"steps": len(b.Ops), "restored_and_compared": restored}
 	return res
+}
+
+// undCandidates returns the spelling in the trash that equals arg exactly (or "") and all spellings
+// that equal it up to letter case, sorted.
+func undCandidates(trash map[string]string, arg string) (exact string, all []string) {
+	for k := range trash {
+		if strings.EqualFold(k, arg) {
+			all = append(all, k)
+			if k == arg {
+				exact = k
+			}
+		}
+	}
+	sort.Strings(all)
+	return exact, all
+}
+
+// undCrashPhase: see UndBody.Crash. Returns the number of restorations compared.
+func undCrashPhase(ctx context.Context, sc *core.Scenario, b *UndBody, w *World, sos *simos.OS, res *core.Result, live map[string]string, dropped map[string]string) int {
+	s, err := w.NewSessionNoDB(ctx)
+	if err != nil {
+		return 0
+	}
+	// what every live database shows now
+	want := map[string]string{}
+	for _, n := range undNames {
+		if live[n] != "" {
+			fp, err := fingerprint(ctx, s, n)
+			if err != nil {
+				res.Violate("fingerprint-failed", "when=before-crash-phase", 0, "%s", firstLine(err))
+				return 0
+			}
+			want[n] = fp
+		}
+	}
+	// the statement the server does not survive: DROP of a live database, else dolt_undrop of a dropped
+	// one (whose name is free and names one spelling only)
+	target, spelled, stmt, what := "", "", "", ""
+	for _, n := range []string{"d1", "d2", "test"} {
+		if live[n] != "" {
+			target, spelled, stmt, what = n, live[n], "DROP DATABASE `"+n+"`", "DROP DATABASE"
+			break
+		}
+	}
+	if target == "" {
+		for _, n := range undNames {
+			if _, cands := undCandidates(dropped, n); len(cands) == 1 {
+				target, spelled, stmt, what = n, cands[0], "CALL dolt_undrop('"+cands[0]+"')", "dolt_undrop"
+				want[n] = dropped[cands[0]]
+				break
+			}
+		}
+	}
+	if target == "" {
+		return 0
+	}
+	// the trash as it will be: the target's spelling aside (it is in flight), everything else stays
+	trash := map[string]string{}
+	for k, fp := range dropped {
+		if k != spelled {
+			trash[k] = fp
+		}
+	}
+	start := sos.LogLen()
+	_, serr := s.Exec(ctx, stmt)
+	end := sos.LogLen()
+	if serr != nil {
+		res.Probe("crash_phase_statement_refused")
+		return 0
+	}
+	res.Probe("crash_phase:" + what)
+	log := append([]simos.Event(nil), sos.Log()...)
+	if dbg := os.Getenv("DSIM_DEBUG_C47"); dbg != "" {
+		if f, err := os.OpenFile(dbg, os.O_APPEND|os.O_CREATE|os.O_WRONLY, 0o644); err == nil {
+			fmt.Fprintf(f, "== %s\n", stmt)
+			for i := start; i < end; i++ {
+				if e := log[i]; e.Kind != simos.EvWrite {
+					fmt.Fprintf(f, "  %d %s %s %s\n", i, e.Kind, e.Path, e.Path2)
+				}
+			}
+			f.Close()
+		}
+	}
+	w.Close()
+	simos.Uninstall()
+	crashImagesMayLackRootDB = true
+	defer func() { crashImagesMayLackRootDB = false }()
+	compared := 0
+	cases := sqlCrashCases(log, start, end, "test", 10, int(sc.Seed%7), b.Only)
+	forEachCrashImage(ctx, res, log, sc.Seed, cases, what+" of "+target, func(w2 *World, c sqlCrashCase, desc string, pin func(*core.Violation)) {
+		s2, err := w2.NewSessionNoDB(ctx)
+		if err != nil {
+			pin(res.Violate("server-unusable-after-crash", "what=session", 0, "%s: %s", desc, firstLine(err)))
+			return
+		}
+		shown := map[string]bool{}
+		if rows, err := s2.Exec(ctx, "SHOW DATABASES"); err == nil {
+			for _, r := range rows {
+				shown[strings.ToLower(r[0])] = true
+			}
+		}
+		for _, n := range undNames {
+			fp, ok := want[n]
+			if !ok {
+				continue
+			}
+			state := "live"
+			if !shown[n] {
+				// only the database the interrupted statement was moving may be away, and then it has to
+				// come back (under its own spelling: the trash may hold a namesake in another letter case)
+				if n != target {
+					pin(res.Violate("database-lost-in-crash", "what=bystander;variant="+c.Variant.Name, 0, "%s: database %s, which the statement did not touch, is gone", desc, n))
+					return
+				}
+				state = "undropped"
+				if _, uerr := s2.Exec(ctx, "CALL dolt_undrop('"+spelled+"')"); uerr != nil {
+					pin(res.Violate("database-lost-in-crash", "what=target;stmt="+what+";variant="+c.Variant.Name, 0, "%s: database %s is neither there nor restorable: dolt_undrop('%s'): %s", desc, n, spelled, firstLine(uerr)))
+					return
+				}
+			}
+			s3, err := w2.NewSessionNoDB(ctx)
+			if err != nil {
+				return
+			}
+			got, err := fingerprint(ctx, s3, n)
+			if err != nil {
+				pin(res.Violate("database-unreadable-after-crash", "state="+state+";variant="+c.Variant.Name, 0, "%s: database %s (%s): %s", desc, n, state, firstLine(err)))
+				return
+			}
+			if got != fp {
+				pin(res.Violate("database-differs-after-crash", "state="+state+";variant="+c.Variant.Name, 0, "%s: database %s (%s) differs from what it held before:\nbefore:\n%s\nafter:\n%s", desc, n, state, indent(fp), indent(got)))
+				return
+			}
+			if n == target {
+				res.Probe("crash_target_" + state)
+				compared++
+			}
+			shown[n] = true
+		}
+		// what was in the trash before is still restorable, by its exact spelling, when its name is free
+		var ks []string
+		for k := range trash {
+			ks = append(ks, k)
+		}
+		sort.Strings(ks)
+		for _, k := range ks {
+			n := strings.ToLower(k)
+			if shown[n] {
+				continue
+			}
+			if _, uerr := s2.Exec(ctx, "CALL dolt_undrop('"+k+"')"); uerr != nil {
+				pin(res.Violate("dropped-database-lost-in-crash", "variant="+c.Variant.Name, 0, "%s: database %s, dropped earlier and not purged, cannot be restored: %s", desc, k, firstLine(uerr)))
+				return
+			}
+			shown[n] = true
+			s3, err := w2.NewSessionNoDB(ctx)
+			if err != nil {
+				return
+			}
+			if got, err := fingerprint(ctx, s3, n); err != nil || got != trash[k] {
+				pin(res.Violate("database-differs-after-crash", "state=trash;variant="+c.Variant.Name, 0, "%s: database %s restored from the trash differs (%v):\nbefore:\n%s\nafter:\n%s", desc, k, err, indent(trash[k]), indent(got)))
+				return
+			}
+			res.Probe("crash_trash_restored")
+		}
+	}, func(c SQLCrash) []byte {
+		b2 := *b
+		b2.Only = &c
+		raw, _ := json.Marshal(b2)
+		return raw
+	})
+	return compared
 }
 
 func (UND) Shrinks(sc *core.Scenario) []*core.Scenario {
